@@ -18,17 +18,20 @@ import (
 	"context"
 	"errors"
 	"fmt"
+	"os"
 	"reflect"
 	"runtime"
 	"strconv"
 	"strings"
 	"sync"
 	"time"
+	"unsafe"
 
 	"github.com/IrineSistiana/mosdns/v5/coremain"
 	"github.com/IrineSistiana/mosdns/v5/pkg/query_context"
 	"github.com/IrineSistiana/mosdns/v5/pkg/utils"
 	"github.com/IrineSistiana/mosdns/v5/pkg/verifhook"
+	"github.com/IrineSistiana/mosdns/v5/plugin/executable/drop_resp"
 	"github.com/IrineSistiana/mosdns/v5/plugin/executable/sequence"
 	"github.com/IrineSistiana/mosdns/v5/plugin/executable/sequence/fallback"
 	"github.com/miekg/dns"
@@ -109,6 +112,8 @@ type spec struct {
 	g       [nGates]cond
 	// not part of the literal (equivalent for the model, see runCase)
 	errWithResp bool
+	dropResp    bool          // "no answer" is produced by setting a response and removing it with the real drop_resp plugin
+	ctxAge      time.Duration // the query context is this old when the plugin is entered
 	grace       time.Duration
 	sched       string
 	thrMs       int // configured threshold (0 = derive from fires)
@@ -254,6 +259,31 @@ func hook(name string) {
 
 var errScripted = errors.New("scripted failure")
 
+// the real drop_resp plugin
+var dropper = func() sequence.Executable {
+	p, err := drop_resp.QuickSetup(nil, "")
+	if err != nil {
+		panic(err)
+	}
+	return sequence.ToExecutable(p)
+}()
+
+// backdate makes the query context look d old (Context.startTime has no
+// setter; the threshold must not depend on it).
+func backdate(qCtx *query_context.Context, d time.Duration) {
+	f := reflect.ValueOf(qCtx).Elem().FieldByName("startTime")
+	if !f.IsValid() || f.Type() != reflect.TypeOf(time.Time{}) {
+		fmt.Fprintln(os.Stderr, "c20: query_context.Context has no startTime field of type time.Time any more; the harness must be updated")
+		os.Exit(2)
+	}
+	p := (*time.Time)(unsafe.Pointer(f.UnsafeAddr()))
+	*p = p.Add(-d)
+	if age := time.Since(qCtx.StartTime()); age < d {
+		fmt.Fprintln(os.Stderr, "c20: back-dating the query context had no effect")
+		os.Exit(2)
+	}
+}
+
 type scripted struct {
 	c    *ctl
 	prim bool
@@ -288,6 +318,10 @@ func (e *scripted) Exec(ctx context.Context, qCtx *query_context.Context) error 
 		qCtx.SetResponse(r)
 		return nil
 	case oNone:
+		if e.c.sp.dropResp { // forward ...; drop_resp: an answer was obtained and then discarded
+			qCtx.SetResponse(mk())
+			return dropper.Exec(ctx, qCtx)
+		}
 		return nil
 	default:
 		if e.c.sp.errWithResp { // an error counts as a failure even when a response was set
@@ -368,6 +402,9 @@ func runCase(sp *spec) result {
 	q := new(dns.Msg)
 	q.SetQuestion("c20.test.", dns.TypeA)
 	qCtx := query_context.NewContext(q)
+	if sp.ctxAge > 0 {
+		backdate(qCtx, sp.ctxAge)
+	}
 	done := make(chan error, 1)
 	t0 := time.Now()
 	go func() { done <- fb.Exec(ctx, qCtx) }()
@@ -412,7 +449,7 @@ func runCase(sp *spec) result {
 		coq:  sp.coqPrefix() + " " + obs,
 		kind: kind,
 		desc: map[string]any{"po": sp.po.coq(), "so": sp.so.coq(), "standby": sp.standby, "fires": sp.fires, "dl": sp.dl,
-			"err_with_resp": sp.errWithResp, "grace_ms": sp.grace.Milliseconds()},
+			"err_with_resp": sp.errWithResp, "drop_resp": sp.dropResp, "ctx_age_ms": sp.ctxAge.Milliseconds(), "grace_ms": sp.grace.Milliseconds()},
 	}
 }
 
@@ -556,7 +593,11 @@ type job struct {
 	run func() result // non-nil: a configuration or timing case
 }
 
-func mkSpec(o *hx.Opts, id string, t *tmpl, po, so outcome, sb bool) *spec {
+// mkSpec fills in what the literal does not show because the property says it
+// must not matter: how "no answer" / "error" come about, how old the query
+// context is, the grace period. k >= 0 (catalogue repeat index) makes the
+// choice systematic: repeats 2, 5, .. have an old context, odd repeats drop a response.
+func mkSpec(o *hx.Opts, id string, t *tmpl, po, so outcome, sb bool, k int) *spec {
 	r := hx.NewRNG(o.Seed, id)
 	sp := &spec{po: po, so: so, standby: sb, fires: t.fires, g: t.g, sched: t.name}
 	switch {
@@ -569,6 +610,19 @@ func mkSpec(o *hx.Opts, id string, t *tmpl, po, so outcome, sb bool) *spec {
 	}
 	sp.errWithResp = r.Bool()
 	sp.grace = time.Duration(r.Range(15, 30)) * time.Millisecond
+	thr := 60 * time.Second
+	if t.fires {
+		thr = 20 * time.Millisecond
+	}
+	old := r.Chance(1, 3)
+	sp.dropResp = r.Bool()
+	if k >= 0 {
+		old = k%3 == 2
+		sp.dropResp = k%2 == 1
+	}
+	if old {
+		sp.ctxAge = 2 * thr // older than the threshold: an earlier step of the sequence was slow
+	}
 	return sp
 }
 
@@ -595,7 +649,7 @@ func main() {
 					for k := 0; k < reps; k++ {
 						id := fmt.Sprintf("cat:%s:%s:%s:%v:%d", t.name, po.coq(), so.coq(), sb, k)
 						if o.Want(id) {
-							jobs = append(jobs, job{id: id, sp: mkSpec(o, id, t, po, so, sb)})
+							jobs = append(jobs, job{id: id, sp: mkSpec(o, id, t, po, so, sb, k)})
 						}
 					}
 				}
@@ -649,7 +703,7 @@ func main() {
 				po, so = oAns, oAns
 			}
 			if t.live(po, so, sb) {
-				jobs = append(jobs, job{id: id, sp: mkSpec(o, id, t, po, so, sb)})
+				jobs = append(jobs, job{id: id, sp: mkSpec(o, id, t, po, so, sb, -1)})
 				break
 			}
 		}
